@@ -241,6 +241,14 @@ func H_C12_truth() {
 	} else {
 		rt.Assert(h.TraceIsSkipping(skipB) && isErrKind(r, object.StopIterErr), "guarded yield must stop the iterator for a false condition")
 	}
+	// the guard of a guarded defer is decided when the defer statement runs, once
+	h.Reset()
+	r = h.EvalNoPanic(`{|g| defer mark(9) if g; g := (nil if g else 1); mark(1)}(c)`)
+	if want {
+		rt.Assert(h.TraceIsSkipping(skipB, 1, 9) && isInt(r, 1), "a guarded defer is decided by its guard at the time the statement runs (true)")
+	} else {
+		rt.Assert(h.TraceIsSkipping(skipB, 1) && isInt(r, 1), "a guarded defer is decided by its guard at the time the statement runs (false)")
+	}
 	h.Reset()
 	r = h.EvalNoPanic(`{|| defer mark(9) if c; mark(1)}()`)
 	if want {
